@@ -35,7 +35,7 @@ def setup(mode):
     hashing.install("replay")
 
 
-def _build(U, sels, vals, k1, k2):
+def _build(U, sels, vals, k1, k2, reverse=False):
     """GenTask graph; sels decide which positions exist and what is shared"""
     it = iter(sels)
     leaf = U.Leaf(i=vals[0])
@@ -59,6 +59,9 @@ def _build(U, sels, vals, k1, k2):
         next(it)
     if next(it):
         kw["bag"] = U.Bag(xs=[U.Leaf(i=vals[1]), leaf])
+    if reverse:
+        # the same configuration written with its keyword arguments in the opposite order
+        kw = dict(reversed(list(kw.items())))
     return U.GenTask(**kw)
 
 
@@ -77,14 +80,16 @@ def _generated(root):
             for name, a in x.__xpmtype__.arguments.items():
                 if a.generator is not None and hasattr(a.generator, "isoutput") and a.generator.isoutput():
                     out.append((x, name, x.__xpm__.values.get(name)))
-            for v in x.__xpm__.values.values():
-                walk(v)
+            # declared (name) order: independent of the order in which the
+            # values were assigned, so that two builds are compared position by position
+            for name in sorted(x.__xpm__.values):
+                walk(x.__xpm__.values[name])
         elif isinstance(x, list):
             for e in x:
                 walk(e)
         elif isinstance(x, dict):
-            for e in x.values():
-                walk(e)
+            for k in sorted(x):
+                walk(x[k])
 
     walk(root)
     return out
@@ -107,7 +112,7 @@ def paths(
     k1, k2 = SHARD["keys"]
     t1 = _build(U, sels, vals, k1, k2)
     graphs.dry_submit(t1)
-    t2 = _build(U, sels, vals, k1, k2)
+    t2 = _build(U, sels, vals, k1, k2, reverse=True)
     graphs.dry_submit(t2)
     ok = True
     jobpath = t1.__xpm__.job.path
